@@ -2,6 +2,7 @@ package scen
 
 import (
 	h "lssim/harness"
+	"lssim/world"
 )
 
 func init() {
@@ -123,6 +124,7 @@ func genC05(c *ctx) {
 	p.Terraformy = c.chance(0.8)
 	p.Functions = 3 + c.n(8)
 	p.HalfTyped = []float64{0, 0.05, 0.15}[c.n(3)]
+	p.Hooks = c.chance(0.6)
 	c.makeWorld(p)
 	c.add(&h.Event{K: "quiesce"})
 	rounds := 4
@@ -151,6 +153,18 @@ func genC05(c *ctx) {
 		nt := 2 + c.n(5)
 		if c.chance(0.1) {
 			nt = 16
+		}
+		// completion inside the value of an attribute with completion hooks,
+		// sometimes while the hooks fail: the decoder context (hook registry) is
+		// shared by every request
+		hookFault := false
+		if hv := c.hookValues(); hotQ == nil && len(hv) > 0 && c.chance(0.5) {
+			q := hv[c.n(len(hv))]
+			hotQ = &q
+			if c.chance(0.5) {
+				hookFault = true
+				c.add(&h.Event{K: "fault", Fault: []string{"hook_error", "hook_partial"}[c.n(2)], On: true})
+			}
 		}
 		rd := &h.Round{Reverse: c.chance(0.5)}
 		// bias: several tasks hammer the same position (conflicts need the same memory)
@@ -188,10 +202,55 @@ func genC05(c *ctx) {
 			rd.Pick = append(rd.Pick, c.n(64))
 		}
 		c.add(&h.Event{K: "round", Round: rd})
+		if hookFault {
+			c.add(&h.Event{K: "fault", Fault: "hook_error", On: false})
+		}
 		if c.chance(0.25) {
 			c.add(&h.Event{K: "quiesce"})
 		}
 	}
+}
+
+// hookValues: completion queries inside the written values of attributes
+// whose schema names completion hooks.
+func (c *ctx) hookValues() []h.Query {
+	var out []h.Query
+	for pi, ps := range c.sc.World.Paths {
+		names := map[string]bool{}
+		var walk func(b *world.BodySpec, d int)
+		walk = func(b *world.BodySpec, d int) {
+			if b == nil || d > 12 {
+				return
+			}
+			for _, a := range b.Attrs {
+				if len(a.Hooks) > 0 {
+					names[a.Name] = true
+				}
+			}
+			for _, bl := range b.Blocks {
+				walk(bl.Body, d+1)
+				for _, dp := range bl.Dep {
+					walk(dp.Body, d+1)
+				}
+			}
+		}
+		walk(ps.Schema, 0)
+		if len(names) == 0 || pi >= len(c.rend) {
+			continue
+		}
+		for _, r := range c.rend[pi] {
+			for _, n := range r.Nodes {
+				if n != nil && n.Kind == "attr" && n.Item != nil && n.Item.Attr != nil && names[n.Item.Attr.Name] && n.Value.End > n.Value.Start {
+					off := n.Value.Start + 1
+					if off > n.Value.End {
+						off = n.Value.End
+					}
+					out = append(out, h.Query{Kind: "completion", Path: pi, File: r.Name, Off: off})
+				}
+			}
+		}
+	}
+	return out
 }
 
 // midNamespaced returns the offsets strictly inside maximal runs of function
